@@ -66,6 +66,11 @@ def selftest(bdir):
     c = classify(r['bad'][0], r['bad'][2])
     if not c or 'stack-buffer-overflow' not in c:
         core.die_infra('E4 self-test: the planted overflow of the toy listener was not detected: %s' % (r['bad'],))
+    r = run_batch(exe, [('grow', '', '-', ['Dx40/1.1.1:0511bbccddee']), ('flat', '', '-', ['Dx40/1.1.1:0411bbccdd'])])
+    if 'STACKGROWTH' not in r['grow'][1] or 'STACKGROWTH' in r['flat'][1] or classify(r['flat'][0], r['flat'][2]) is not None:
+        core.die_infra('E4 self-test: the planted per-datagram alloca of the toy listener was not reported (or reported without it): %s / %s' % (r['grow'][:2], r['flat'][:2]))
+    if r['grow'][1].count('RECV') != 5 or 'OUT 11' not in r['grow'][1] or 'OUT 38' not in r['grow'][1]:
+        core.die_infra('E4 self-test: repeated event not delivered/logged as specified: %s' % (r['grow'][1],))
     return c
 
 
